@@ -12,6 +12,7 @@ the phasor network of the same circuit at complex frequency s = jw with one sour
 amplitude and every other source set to zero (the Spec side of C10).
 """
 from __future__ import annotations
+import copy
 import itertools, math
 from fractions import Fraction
 import numpy as np
@@ -124,6 +125,16 @@ def permute_reactive(rng, desc, keep_inductors_sorted):
     return dict(desc, comps=comps)
 
 VARY_FACTORS = [2.0, 0.5, 4.0, 0.25, 8.0, 1.5, 0.75, 3.0, 0.125, 6.0, 0.375, 16.0]
+
+def with_int_values(rng, desc):
+    """the same topology with integral R, C, L values handed over as integer-typed numbers (all of them: one float
+    among the reactive values would hide an integer-dtype slip)"""
+    d = copy.deepcopy(desc)
+    for c in d['comps']:
+        if c['kind'] in ('R', 'C', 'L'):
+            c['val'] = float(rng.choice([1, 2, 3, 4, 2, 3]))
+    d['int_values'] = rng.choice(['int', 'int', 'int64', 'int32'])
+    return d
 
 def vary_values(rng, desc, kinds=('R', 'C', 'L')):
     """the same description (ids, nodes, listing order, source values) with every element of the given
@@ -306,11 +317,16 @@ def build_circuit(desc):
     from CircuitCalculator.Circuit.circuit import Circuit
     from CircuitCalculator.Circuit import components as cmp
     comps = []
+    ity = {'int': int, 'int64': np.int64, 'int32': np.int32}.get(desc.get('int_values'))
+    def tv(x):
+        # integer-TYPED passive values (Python int / numpy integer) where the value is integral: the same circuit,
+        # but integer division / integer dtypes in the builder now bite (seeded change C11-5B)
+        return ity(int(x)) if ity is not None and float(x) == int(x) else x
     for c in desc['comps']:
         k, nodes = c['kind'], (c['n1'], c['n2'])
-        if k == 'R': comps.append(cmp.resistor(c['id'], nodes, R=c['val']))
-        elif k == 'C': comps.append(cmp.capacitor(c['id'], nodes, C=c['val']))
-        elif k == 'L': comps.append(cmp.inductance(c['id'], nodes, L=c['val']))
+        if k == 'R': comps.append(cmp.resistor(c['id'], nodes, R=tv(c['val'])))
+        elif k == 'C': comps.append(cmp.capacitor(c['id'], nodes, C=tv(c['val'])))
+        elif k == 'L': comps.append(cmp.inductance(c['id'], nodes, L=tv(c['val'])))
         elif k == 'V' and 'src' in c:
             sr = c['src']
             if sr['type'] == 'ac':
